@@ -20,7 +20,7 @@ RULE = ('fixed corpus (one case per anchored mechanism: every scheme/encrypt/use
         'exhaustive product over the digest grammar (dropped-field subsets x qop x algorithm x credential kind) + seeded random cases; an '
         'auth case is (user table, realm, method, uri, users-table form, encrypt, header recipe) driven through the functions directly and, '
         'for a sample, through HTTP+Dispatcher+Controller using the documented idiom; session and vhost cases also through circuits.web.wsgi.Application '
-        '(hand-built PEP 3333 environs), with requests whose address-like headers claim another client\'s / a gateway\'s address; non-trivial = an Authorization header is sent '
+        '(hand-built PEP 3333 environs), with requests whose address-like headers claim another client\'s / a gateway\'s address, with Controller and JSONController applications, and with requests whose handler raises (answered 500) placed before other clients\' requests; non-trivial = an Authorization header is sent '
         '(auth) / some request presents a cookie it must not profit from while data is stored (session) / a forwarded host that maps to '
         'another prefix than Host is sent under a configured gateway list (vhost); distinct = hash of the declarative case')
 ASSUMPTIONS = [
